@@ -15,7 +15,9 @@ EXPLANATION = (
     'committed before Ok; B7 the keyspace list is read from the persistent registry the writers register keyspaces in (LMDB registry table; '
     'SQLite: all statements address the one created table); '
     'B8 no SQL statement compares or orders by the TEXT timestamp column (its text form is not order-preserving) and write statements are '
-    'unconditional. NOT decided: agreement of results with a reference model for arbitrary call sequences; byte fidelity; reopen.')
+    'unconditional; B9 every SQLite read statement returns every row matching its key: no LIMIT / OFFSET outside a paging loop and no range '
+    'predicate on doc_id whose bound starts at a compile-time constant inside the i64 range (ids are stored as the i64 reinterpretation of '
+    'the u64, so ids >= 2^63 are negative rows). NOT decided: agreement of results with a reference model for arbitrary call sequences; byte fidelity; reopen.')
 ASSUMPTIONS = ['rusqlite / heed / LMDB behave as documented', 'the storage worker thread executes one task at a time']
 
 SQ = 'datacake_sqlite::'
@@ -342,6 +344,66 @@ def check_B8(ctx, facts, rule='C17.B8'):
     ctx.floor(rule, 'SQLite data statements', n, 6)
 
 
+def check_B9(ctx, facts):
+    """doc ids are stored as the i64 reinterpretation of the u64 (ids >= 2^63 are negative rows).  A read statement must return
+    every row matching its key: a LIMIT outside a paging loop, or a range predicate on doc_id whose bound is a compile-time
+    constant other than the extreme of i64, provably excludes rows."""
+    I64_MIN, I64_MAX = -(1 << 63), (1 << 63) - 1
+    n = 0
+    for body in facts.bodies.values():
+        if body.crate != 'datacake_sqlite' or body.d['promoted']:
+            continue
+        flow = direct = None
+        for b, t in body.calls():
+            if cname(t) not in SQL_CALLS:
+                continue
+            flow = flow or Flow(body)
+            name, text = sql_of(facts, body, flow, op_local(t['args'][1]))
+            if text is None:
+                continue     # B1 fails closed on this
+            txt = ' '.join(text.split())
+            if not re.match(r'SELECT', txt, re.I):
+                continue
+            n += 1
+            where = body.name.replace(SQ, '').replace('::{closure#0}', '')
+            key = '%s|%s|every-row' % (where, last_seg(name))
+            why = []
+            in_loop = b in body.reachable_from(body.succ(b))
+            if re.search(r'\b(LIMIT|OFFSET)\b', txt, re.I) and not in_loop:
+                why.append('the statement carries LIMIT / OFFSET and is executed once: rows beyond the limit are never returned')
+            # range predicates on the id column
+            tuple_ops = None
+            for _b, _j, s_ in body.assigns():
+                if s_['lhs']['l'] == op_local(t['args'][2]) and not s_['lhs']['p'] and s_['rv']['k'] == 'aggregate' and s_['rv'].get('agg') == 'tuple':
+                    tuple_ops = s_['rv']['ops']
+            for m in re.finditer(r'doc_id\s*(>=|<=|>|<)\s*\?|\?\s*(>=|<=|>|<)\s*doc_id', txt):
+                rel = m.group(1) or FLIP[m.group(2)]
+                idx = txt[:m.start() + m.group(0).index('?')].count('?')
+                consts = []
+                if tuple_ops is not None and idx < len(tuple_ops):
+                    o = tuple_ops[idx]
+                    if const_int(o) is not None:
+                        consts.append(const_int(o))
+                    elif op_local(o) is not None:
+                        direct = direct or Flow(body, only=set())
+                        back = direct.backward([op_local(o)])
+                        for _b2, _j2, s2 in body.assigns():
+                            if s2['lhs']['l'] in back and not s2['lhs']['p'] and s2['rv']['k'] == 'use' and const_int(s2['rv']['op']) is not None:
+                                consts.append(const_int(s2['rv']['op']))
+                consts = [c - (1 << 64) if c > I64_MAX else c for c in consts]
+                for c in consts:
+                    complete = (rel == '>=' and c == I64_MIN) or (rel == '<=' and c == I64_MAX)
+                    if not complete:
+                        why.append('the statement selects `doc_id %s ?` and the bound starts at the constant %d: ids are bound `as i64`, so ids >= 2^63 '
+                                   'are stored as negative doc_id and rows on the wrong side of %d are never returned (documents storage holds are '
+                                   'missing from this read while get / multi_get still serve them)' % (rel, c, c))
+            good = not why
+            ctx.ob('C17.B9', key, good, site(body, t['cs']),
+                   '%s returns every row matching its key (no LIMIT outside a paging loop, no id range starting at a constant inside the i64 range)' % last_seg(name)
+                   if good else '; '.join(why))
+    ctx.floor('C17.B9', 'SQLite read statement executions', n, 4)
+
+
 def check(ctx):
     prod = ctx.facts('prod')
     tu = ctx.facts('testutils')
@@ -352,3 +414,4 @@ def check(ctx):
     check_B5(ctx, prod)
     check_B7(ctx, prod)
     check_B8(ctx, prod)
+    check_B9(ctx, prod)
